@@ -418,7 +418,7 @@ def run_c20(tier, seed, replay=None):
             with open(sc.path("walks.ndjson"), "w") as fh:
                 fh.write(json.dumps(obj["diff"]["walk"]) + "\n")
         diffs, tot = [], {"ops": 0, "stress_rounds": 0}
-        for exe, walks, rounds, name in ((zx, sc.path("walks.ndjson"), 2, "seq"), (zxr, "/dev/null", 8 if q else 150, "race")):
+        for exe, walks, rounds, name in ((zx, sc.path("walks.ndjson"), 40 if q else 400, "seq"), (zxr, "/dev/null", 8 if q else 150, "race")):
             p = subprocess.run([exe, "refcount", "-in", walks, "-tables", sc.path("tables.json"), "-dir", sc.path("segs-" + name),
                                 "-out", sc.path("diffs-%s.ndjson" % name), "-n", str(rounds)],
                                stdout=subprocess.PIPE, stderr=subprocess.STDOUT, text=True, timeout=3600)
@@ -452,7 +452,16 @@ def run_c20(tier, seed, replay=None):
                "rule": "one evaluation = one reference operation followed by /proc inspection and a complete read; distinct = distinct operation sequences", "exhaustive": True}
         assumptions = ["holders call AddRef/DecRef/Close only while they own a reference (balanced use)",
                        "Linux /proc/self/maps and /proc/self/fd describe the process's mappings and descriptors"]
-        return finish(pid, tier, seed, t0, cov, assumptions, diffs, lambda d: "refcount/" + d["what"], known, lambda d: d)
+        # the thesaurus cache's final release (Clear under its write lock) is part of the last DecRef: a lock left
+        # behind by concurrent look-ups keeps the mapping for ever
+        sy = syncache_stage(zx, sc, tier, seed, pid)
+        cov["thesaurus_cache"] = sy["cov"]
+        for k in ("states", "transitions", "traces_validated_against_impl"):
+            cov[k] += sy["cov"].get(k, 0)
+        rc = finish(pid, tier, seed, t0, cov, assumptions, diffs, lambda d: "refcount/" + d["what"], known, lambda d: d)
+        for p in sy["paths"]:
+            log("VIOLATION property=%s replay=%s" % (pid, p))
+        return 1 if sy["paths"] else rc
     finally:
         sc.close()
 
@@ -763,6 +772,87 @@ def c03_pre(zx, sc, tier, seed, known):
 
 def c07_pre(zx, sc, tier, seed, known):
     return merge_pre(postiter_stage(zx, sc, tier, seed, known), chunkcoder_stage(zx, sc, tier, seed, "C07", "int"))
+
+
+
+# ---------------------------------------------------------------------------
+# thesaurus cache at the grain of its critical sections (part of C11 and of C20)
+
+def syncache_stage(zx, sc, tier, seed, pid):
+    outp, st = tlc(sc, "SynCache", cfg="SynCache.cfg", workers=4, timeout=900, outname="sy.out")
+    errs = tlc_errors(outp)
+    if errs:
+        raise Inconclusive("SynCache model: " + "; ".join(errs[:3]))
+    n, tables = 0, None
+    with open(sc.path("sywalks.ndjson"), "w") as fh:
+        for tag, payload in printed(outp, ("WALK", "TABLES")):
+            if tag == "TABLES":
+                tables = tables or payload
+            else:
+                fh.write(payload + "\n")
+                n += 1
+    os.remove(outp)
+    if n == 0 or tables is None:
+        raise Inconclusive("SynCache model emitted no behaviours")
+    open(sc.path("sytables.json"), "w").write(tables)
+    o2, _ = tlc(sc, "SynCache", cfg="SynCacheLeak.cfg", workers=2, timeout=600, outname="sy2.out")
+    if not any("LockFree is violated" in e for e in tlc_errors(o2)):
+        raise Inconclusive("SynCache model does not refute the variant that leaves the write lock behind")
+    p = subprocess.run([zx, "syncache", "-in", sc.path("sywalks.ndjson"), "-tables", sc.path("sytables.json"), "-dir", sc.path("sysegs"),
+                        "-out", sc.path("sydiffs.ndjson")], stdout=subprocess.PIPE, stderr=subprocess.STDOUT, text=True, timeout=3600)
+    if p.returncode != 0:
+        raise Inconclusive("harness syncache failed: " + p.stdout[-1500:])
+    rs = kv(p.stdout)
+    log("G: SynCache: %d states (LockFree, OneEntry, Served hold; leaked-lock variant refuted), %d behaviours;  R: %s" % (st["distinct_states"], n, p.stdout.strip()))
+    if rs.get("gated", 0) == 0:
+        raise Inconclusive("vacuous syncache replay (no look-up was parked between its sections)")
+    diffs = read_diffs(sc.path("sydiffs.ndjson"))
+    paths, seen = [], set()
+    for d in diffs:
+        key = "syncache/" + d["what"].split(":")[0]
+        if key in seen or len(paths) >= 2:
+            continue
+        seen.add(key)
+        log("mismatch %s: %s" % (key, trunc(d, 700)))
+        paths.append(save_replay(pid, seed, 170 + len(paths), {"property": pid, "key": key, "family": "syncache", "diff": d}))
+    with open(sc.path("sywalks.ndjson")) as fh:
+        lines = fh.readlines()
+    cov = {"family": "syncache", "states": st["distinct_states"], "transitions": st["states_generated"],
+           "traces_validated_against_impl": n, "samples": [json.loads(lines[len(lines) // 2])],
+           "model": {"module": "SynCache.tla", "cfg": "SynCache.cfg", "invariants": ["LockFree", "OneEntry", "Served"],
+                     "refuted_variant": "SynCacheLeak.cfg (the second section returns on its repeated look-up without releasing the write lock)", "wall_s": st["wall_s"]},
+           "behaviours": n, "lookups_parked_between_their_sections": rs["gated"],
+           "configurations": "three concurrent look-ups over two thesauri of one mmap-opened segment, every order of their critical sections; after each behaviour one more look-up and the final Close must return (10 s) and the mapping must be gone"}
+    return {"cov": cov, "paths": paths}
+
+
+def syncache_replay(pid, replay):
+    sc = Scratch()
+    try:
+        zx = build_harness(("verif",))
+        obj = json.load(open(replay))
+        outp, st = tlc(sc, "SynCache", cfg="SynCache.cfg", workers=4, timeout=600, outname="sy.out")
+        tables = None
+        for tag, payload in printed(outp, ("TABLES",)):
+            tables = tables or payload
+        open(sc.path("sytables.json"), "w").write(tables)
+        with open(sc.path("w.ndjson"), "w") as fh:
+            fh.write(json.dumps(obj["diff"]["walk"]) + "\n")
+        p = subprocess.run([zx, "syncache", "-in", sc.path("w.ndjson"), "-tables", sc.path("sytables.json"), "-dir", sc.path("sysegs"),
+                            "-out", sc.path("sydiffs.ndjson")], stdout=subprocess.PIPE, stderr=subprocess.STDOUT, text=True)
+        diffs = read_diffs(sc.path("sydiffs.ndjson"))
+        if diffs:
+            log("replay: " + trunc(diffs[0], 800))
+            log("VIOLATION property=%s replay=%s" % (pid, replay))
+            return 1
+        log("replay: no violation of %s on the current tree" % pid)
+        return 0
+    finally:
+        sc.close()
+
+
+def c11_pre(zx, sc, tier, seed, known):
+    return merge_pre(ctxpool_stage(zx, sc, tier, seed, known), syncache_stage(zx, sc, tier, seed, "C11"))
 
 
 
